@@ -723,7 +723,8 @@ def _expand_decay_modes(
         fsp_options: list[list[str]] = []
         for fsp in _get_fs(mode):
             if isinstance(fsp, dict):
-                fsp_options.append(_get_modes(fsp))
+                # A sub-decay without any decay mode is a stable particle
+                fsp_options.append(_get_modes(fsp) or [next(iter(fsp.keys()))])
             elif isinstance(fsp, str):
                 fsp_options.append([fsp])
         for expanded_mode in product(*fsp_options):
